@@ -166,6 +166,10 @@ LEVEL_TEXT['C07'] = LEVEL_TEXT['C07'].replace('the printers of state listings', 
 TECH['C07'] = TECH.get('C07', 'Kani: complete per-character harnesses of the quoting / lexer classification, bounded harness-encoded contracts of quoted() / Display for Quoted and of the value printer') + ', and of print_one on concrete variables'
 LEVEL_TEXT['C18'] = LEVEL_TEXT['C18'].replace('bounded Kani check that read_char of the read built-in decodes and consumes exactly one character under every chunking of the reads.', 'bounded Kani check that read_char of the read built-in decodes and consumes exactly one character under every chunking of the reads, and nothing beyond the first offending byte of an invalid sequence.')
 
+LEVEL_TEXT['C05'] = LEVEL_TEXT['C05'].replace('One mechanism only.', 'Three mechanisms.').replace('The directory search, the matching against entries', 'Added: glob() answers the field itself with quotes removed under noglob (without searching) and when nothing matched, and sorted results otherwise; one level of the directory walk (search_dir) appends a non-pattern component without reading the directory and, for a pattern, takes exactly the entries that are text, neither `.` nor `..`, and matched, each marked existing, omitting none. The recursion through push_component, file_exists, the matching against entries')
+NOTE['C05'] = NOTE['C05'].replace('Not covered: search_dir / push_component, glob() fallback and sort, literal_period, noglob, the file system.', 'Units globtop / globdir: push_component, the regex engine, the directory iterator, the sort are opaque calls. Not covered: push_component / file_exists, literal_period (inside the pattern), the file system.')
+TECH['C05'] = TECH['C05'] + ', of glob() and of SearchEnv::search_dir (opaque callees observed by ghost logs; loop invariant over the directory entries)'
+
 def main():
     checks = []
     for pid in ALL:
